@@ -11,7 +11,7 @@ Request tokens: `<nounset 0|1> <param…> <op…>`
   op:     `plain` | `len` | `sub <off> <len|->` | `t <-|=|?|+> <colon 0|1> <word>` |
           `rm <#|##|%|%%> <pat|!>`
   pat:    escaped string over `L<c>` literal, `Q` = `?`, `S` = `*`, `B+<chars>;` / `B-<chars>;` bracket
-Response: `<impl> | <spec> | <clauses>[ | <variant>]*` where impl/spec are `OK f1 … ;S v` / `ERR ;U` / `PANIC ;N` …
+Response: `<impl> | <spec> | <clauses>` where impl/spec are `OK f1 … ;S v` / `ERR ;U` / `PANIC ;N` …
 (same format as harness/src/bin/c06.rs) and clauses is `-` or a comma-separated list of the
 domain guards of the `_partial` theorems the case falls outside of.
 -/
@@ -98,65 +98,9 @@ def showProbe (p : Param) (o : Outcome) : Str :=
 
 def showOutcome (p : Param) (o : Outcome) : Str := showRes o.res ++ [' '] ++ showProbe p o
 
-def hasNewline (s : Str) : Bool := s.contains '\n'
-def isAscii (s : Str) : Bool := s.all (fun c => c.toNat < 0x80)
-
-def paramStrings : Param → List Str
-  | .named (some s) | .elem (some s) _ | .pos (some s) => [s]
-  | .named none | .elem none _ | .pos none => []
-  | .all vals _ | .posAll vals _ => vals
-
-def isScalar : Param → Bool
-  | .all _ _ | .posAll _ _ => false
-  | _ => true
-
-/-- the guards of the `_partial` theorems this case violates -/
-def clauses (p : Param) (pat : Option Pat) : Op → List String
-  | .rm k true =>
-    let pt := pat.getD []
-    (if !k.largest && globMatch pt [] then ["shortest_match_skips_empty"] else []) ++
-    (if (paramStrings p).any hasNewline then ["pattern_anchors_at_newlines"] else [])
-  | .sub off len =>
-    (match len with | some l => if l < 0 then ["substring_negative_length"] else [] | none => []) ++
-    (if isScalar p && off < 0 && !(paramStrings p).all isAscii then ["length_counts_bytes"] else [])
-  | .len => if isScalar p && !(paramStrings p).all isAscii then ["length_counts_bytes"] else []
-  | .test op colon _ =>
-    match p with
-    | .all vals star | .posAll vals star =>
-      (if colon && vals.length ≥ 2 && vals.all (·.isEmpty) then ["all_null_elements_count_as_null"] else []) ++
-      (if op = .useAlternative && vals.isEmpty && !star then ["at_alternative_on_empty_list_keeps_field"] else [])
-    | _ => []
-  | _ => []
-
-/-- The Impl model with one or more of the proposed repairs applied (`removeSmallest*Fixed`,
-`substrBoundsFixed`, `polyLenChars`): what brush computes once a recorded defect has been repaired
-while others remain.  Only operators touched by a repair have variants. -/
-def variants (p : Param) (nounset : Bool) (m : Str → Bool) : Op → List Outcome
-  | .rm k true =>
-    let f : Str → Str := if k.largest then removeWith k m
-      else if k.suffix then removeSmallestSuffixFixed m else removeSmallestPrefixFixed m
-    match expandParam p false nounset with
-    | some e => [{ res := .ok (mapFields e f) }]
-    | none => []
-  | .sub off len =>
-    match expandParam p false nounset with
-    | some e0 =>
-      let e := match p with
-        | .posAll _ _ => { e0 with fields := shellName :: e0.fields }
-        | _ => e0
-      let withFixedBounds (plen : Nat) : Res :=
-        match substrBoundsFixed (Int.ofNat plen) off len with
-        | none => .err
-        | some b => polySubslice e (asUsize b.1) (asUsize b.2)
-      let oldBoundsChars : Res :=
-        let b := substrBounds (Int.ofNat (polyLenChars e)) off len
-        polySubslice e (asUsize b.1) (asUsize b.2)
-      [{ res := withFixedBounds (polyLen e) }, { res := oldBoundsChars }, { res := withFixedBounds (polyLenChars e) }]
-    | none => []
-  | .len =>
-    match expandExpr p nounset m .len, expandParam p true nounset with
-    | { res := .ok _, .. }, some e => [{ res := .ok (ofStr (natToStr (polyLenChars e))) }]
-    | _, _ => []
+/-- the recorded defects a case can still show (the operators modelled here have none left; an
+extglob `!(…)` group is C08's `extglob_negation_not_complement`) -/
+def clauses (_p : Param) (_pat : Option Pat) : Op → List String
   | _ => []
 
 def rmKind? (o : Str) : Option RmKind :=
@@ -179,12 +123,9 @@ def handleRmx (p : Param) (nounset : Bool) (k : RmKind) (ptxt : Str) : Str :=
     let op := Op.rm k true
     let i := expandExpr p nounset mI op
     let s := bashExpr p nounset mS op
-    let cl : List String :=
-      (if !k.largest && mS [] then ["shortest_match_skips_empty"] else []) ++
-      (if bp.hasBang then ["extglob_negation_not_complement"] else [])
+    let cl : List String := if bp.hasBang then ["extglob_negation_not_complement"] else []
     showOutcome p i ++ " | ".toList ++ showOutcome p s ++ " | ".toList ++
-      (if cl.isEmpty then ['-'] else (String.intercalate "," cl).toList) ++
-      ((variants p nounset mI op).flatMap fun v => " | ".toList ++ showOutcome p v)
+      (if cl.isEmpty then ['-'] else (String.intercalate "," cl).toList)
 
 def handle (toks : List Str) : Str :=
   match toks with
@@ -205,11 +146,10 @@ where
       | none => "bad-op".toList
       | some (op, pat) =>
         let pt := pat.getD []
-        let i := expandExpr p nounset (brushMatch pt) op
+        let i := expandExpr p nounset (globMatch pt) op
         let s := bashExpr p nounset (globMatch pt) op
         let cl := clauses p pat op
         showOutcome p i ++ " | ".toList ++ showOutcome p s ++ " | ".toList ++
-          (if cl.isEmpty then ['-'] else (String.intercalate "," cl).toList) ++
-          ((variants p nounset (brushMatch pt) op).flatMap fun v => " | ".toList ++ showOutcome p v)
+          (if cl.isEmpty then ['-'] else (String.intercalate "," cl).toList)
 
 end BrushVerif.Drv.C06
